@@ -214,3 +214,30 @@ def failpoint_stats(run, st):
         st["failpoint_fired_in|" + x["lagrange_failed_from"]] = st.get("failpoint_fired_in|" + x["lagrange_failed_from"], 0) + 1
     if x.get("tr_increase_fired"):
         st["failpoint_fired_in|calculate_ratio"] = st.get("failpoint_fired_in|calculate_ratio", 0) + 1
+
+
+def growing_restart_variant(cfg, rng, nan_fault=True):
+    """Turn a cfg into: initial set still growing (growing.ndirs_initial < n) + soft restarts that add points
+    (restarts.increase_npt) + something that forces a restart while the set is still growing (a NaN at one of the first
+    evaluations, or an early Lagrange failpoint). This is the only route into Model.add_new_point with unfilled rows."""
+    n = cfg["prob"]["n"]
+    if n < 2 or cfg.get("proj"):
+        return cfg
+    up = cfg["user_params"]
+    for k in list(up):
+        if k.startswith(("growing.", "restarts.", "regression.", "init.")):
+            up.pop(k)
+    cfg["args"].pop("npt", None)
+    up.update({"growing.ndirs_initial": int(rng.integers(1, n)), "restarts.use_restarts": True, "restarts.increase_npt": True,
+               "restarts.max_npt": int(n + 1 + rng.integers(1, 4))})
+    if rng.random() < 0.4:
+        up["growing.num_new_dirns_each_iter"] = int(rng.integers(1, 3))
+    if rng.random() < 0.3:
+        up["restarts.increase_npt_amt"] = 2
+    if nan_fault:
+        cfg["faults"] = {str(int(rng.integers(2, n + 4))): "nan"}
+        cfg.pop("failpoint", None)
+    else:
+        cfg["failpoint"] = dict(name="lagrange", at=int(rng.integers(1, 4)))
+    cfg["_variant"] = "growing+soft-restart+increase_npt"
+    return cfg
